@@ -1,6 +1,6 @@
 (** * C03T: the dagger of every operator is its inverse *)
 From Coq Require Import Reals Lra Lia.
-From QV Require Import Spec Expr ScalarR BitsP OpP LocalP WfP C01P C03P.
+From QV Require Import Spec Expr ScalarR BitsP OpP LocalP WfP C01P C03P C03M.
 Open Scope R_scope.
 
 Notation MF := (multi_fn Rops).
@@ -12,14 +12,14 @@ Proof. destruct z as [x y]. unfold cconj, re, im. cbn [fst snd fneg Rops]. f_equ
 Definition invertible (g : atomic R) : Prop :=
   inv g (atomic_dgr Rops g) /\ inv (atomic_dgr Rops g) g.
 
-(** the gates the public constructors build (valid masks), with S, T, Y on one bit *)
+(** the gates the public constructors build (valid masks); S and T on any machine-word mask, Y on any mask *)
 Inductive good_gate : atomic R -> Prop :=
 | G_Id : good_gate AId
 | G_X m : good_gate (AX m)
-| G_Y b : good_gate (AY (2 ^ b))
+| G_Y m : good_gate (AY m)
 | G_Z m : good_gate (AZ m)
-| G_S b d : good_gate (AS (2 ^ b) d)
-| G_T b d : good_gate (AT (2 ^ b) d)
+| G_S m d : (m < 2 ^ 64)%N -> good_gate (AS m d)
+| G_T m d : (m < 2 ^ 64)%N -> good_gate (AT m d)
 | G_H1 b : good_gate (AH1 (2 ^ b))
 | G_H2 a b : a <> b -> good_gate (AH2 (2 ^ a) (2 ^ b))
 | G_RX m ph : unit_phase ph -> good_gate (ARX m ph)
@@ -47,10 +47,10 @@ Proof.
   intro G. destruct G; unfold invertible; cbn [atomic_dgr].
   - split; intros psi idx; reflexivity.
   - split; apply inv_x.
-  - split; apply inv_y.
+  - split; apply inv_y_m.
   - split; apply inv_z.
-  - split; [apply inv_s|]. generalize (inv_s b (negb d)). rewrite negb_involutive. exact (fun x => x).
-  - split; [apply inv_t|]. generalize (inv_t b (negb d)). rewrite negb_involutive. exact (fun x => x).
+  - split; [apply inv_s_m; assumption|]. generalize (inv_s_m m (negb d) H). rewrite negb_involutive. exact (fun x => x).
+  - split; [apply inv_t_m; assumption|]. generalize (inv_t_m m (negb d) H). rewrite negb_involutive. exact (fun x => x).
   - split; apply inv_h1.
   - split; apply inv_h2; assumption.
   - split; [apply inv_rx; assumption|]. generalize (inv_rx m _ (conj_unit _ H)). rewrite cconj_cconj. exact (fun x => x).
